@@ -251,6 +251,10 @@ func c13Gen(c *hmain.Ctx) {
 	c.R = c.R.Fork()
 	r := c.R
 	g := evGen{r}
+	if os.Getenv("C13_ONLY") == "processors" { // development aid: only the per-processor streams (procs.go)
+		genProcs(c)
+		return
+	}
 
 	// 0. every configuration of the table is accepted by the collector's own validation
 	nCfg := 0
@@ -365,6 +369,11 @@ func c13Gen(c *hmain.Ctx) {
 		fmt.Fprintf(os.Stderr, "stream-time coverage %v\n", time.Since(tg))
 	}
 	genThresholds(c, g)
+	tp := time.Now()
+	genProcs(c)
+	if os.Getenv("C13_TIMES") != "" {
+		fmt.Fprintf(os.Stderr, "stream-time processors %v\n", time.Since(tp))
+	}
 	tm := time.Now()
 	genCovModels(c)
 	genModels(c)
@@ -416,7 +425,7 @@ func main() {
 	insaneJSON.DisableBeautifulErrors = true
 	insaneJSON.StartNodePoolSize = pipeline.DefaultJSONNodePoolSize
 	hmain.Run(&hmain.Prop{ID: "C13",
-		Rule: "catalogue: every table configuration x every notable value (invalid UTF-8, broken embedded JSON, C12 decoder witnesses, huge numbers, containers, non-object roots) in 4 document shapes, 2 events + time-out per case; random: sequences over an adversarial document grammar for every plugin; chain: 2..3 plugins sharing the events; threshold streams (thresholds.go: node-sweep, recycle, buf-growth, big-values, cardinality-ttl, hash-tokens, split-fanout, deep-embedded, twin): inputs that cross the size / count / history thresholds hard-coded in the code (node-pool sizes 16 / 32 / 64 / 128, event.Buf 4096, AvgEventSize, MapUseThreshold, jx depth 10000, regexp backtracker limit, cache ttl), events from the real event pool, two instances sharing one config; model streams: exhaustive small scope + random inputs of each modelled function. Non-trivial = at least two events, or a model case whose input exercises the modelled arithmetic (see models.go); distinct = distinct (sub-model, case) text.",
+		Rule: "catalogue: every table configuration x every notable value (invalid UTF-8, broken embedded JSON, C12 decoder witnesses, huge numbers, containers, non-object roots) in 4 document shapes, 2 events + time-out per case; random: sequences over an adversarial document grammar for every plugin; chain: 2..3 plugins sharing the events; threshold streams (thresholds.go: node-sweep, recycle, buf-growth, big-values, cardinality-ttl, hash-tokens, split-fanout, deep-embedded, twin): inputs that cross the size / count / history thresholds hard-coded in the code (node-pool sizes 16 / 32 / 64 / 128, event.Buf 4096, AvgEventSize, MapUseThreshold, jx depth 10000, regexp backtracker limit, cache ttl), events from the real event pool, two instances sharing one config; processors (procs.go, sub-model 53): every configuration x K = 2..8 instances started as for K processors, K goroutines with their own event streams, each compared with a fresh instance's solo run; model streams: exhaustive small scope + random inputs of each modelled function. Non-trivial = at least two events, or a model case whose input exercises the modelled arithmetic (see models.go); distinct = distinct (sub-model, case) text.",
 		Gen: func(c *hmain.Ctx) {
 			c13Gen(c)
 			// processor-level clause on the real pipeline: a time-out event is only handed to a busy action
@@ -430,6 +439,9 @@ func main() {
 		Exec: func(which int, cs hx.Sx) hx.Sx {
 			if which == templateWhich || which == selectorWhich { // covmodels.go (above pipedrv.PipeWhich: dispatched here)
 				return execCov(which, cs)
+			}
+			if which == procsWhich { // procs.go: the per-processor instances of one action, concurrently
+				return execProcs(cs)
 			}
 			return pipeExec(which, cs)
 		}})
